@@ -103,10 +103,12 @@ def run_check(modname: str, tier: str) -> int:
           flush=True)
     work = os.path.join(kernel.WORK_DIR, prop)
     os.makedirs(work, exist_ok=True)
-    os.makedirs(os.path.join(kernel.VERIF_DIR, 'replays'), exist_ok=True)
-    os.makedirs(os.path.join(kernel.VERIF_DIR, 'evidence'), exist_ok=True)
+    os.makedirs(os.path.join(kernel.out_dir(), 'replays'), exist_ok=True)
+    os.makedirs(os.path.join(kernel.out_dir(), 'evidence'), exist_ok=True)
 
     runs = mod.plan(tier, master)
+    if hasattr(mod, 'warmup'):
+        mod.warmup()
     budget = os.environ.get('VERIF_BUDGET_S')
     deadline = (t0 + float(budget)) if budget else None
     results = [None] * len(runs)
@@ -171,8 +173,8 @@ def run_check(modname: str, tier: str) -> int:
         name = f'{prop}-{kernel.sha(key)}.json'
         ent = match_known(vio, known)
         sub = 'known' if ent else ''
-        pth = os.path.join(kernel.VERIF_DIR, 'replays', sub, name) if sub else \
-            os.path.join(kernel.VERIF_DIR, 'replays', name)
+        pth = os.path.join(kernel.out_dir(), 'replays', sub, name) if sub else \
+            os.path.join(kernel.out_dir(), 'replays', name)
         os.makedirs(os.path.dirname(pth), exist_ok=True)
         with open(pth, 'w', encoding='utf-8') as fil:
             json.dump({'property': prop, 'module': modname, 'master_seed': master,
@@ -225,7 +227,7 @@ def run_check(modname: str, tier: str) -> int:
         'wall_s': round(wall, 1), 'violations': len(confirmed),
         'known_findings_seen': sorted(known_hits), 'harness_errors': len(harness_errors),
     }
-    evp = os.path.join(kernel.VERIF_DIR, 'evidence', f'{prop}.json')
+    evp = os.path.join(kernel.out_dir(), 'evidence', f'{prop}.json')
     with open(evp, 'w', encoding='utf-8') as fil:
         json.dump(evidence, fil, indent=1, sort_keys=True, default=str)
     print(f'{prop} {tier}: runs={agg["n_runs"]} evaluations={agg["n_eval"]} '
